@@ -106,6 +106,8 @@ structure PolySpec where
   prim : PrimId
   /-- dict key (`Coefs`) -/
   dname : Nat
+  /-- constant id of the fill value (the float 0.0 of `numpy.zeros`) -/
+  fill : Nat
 deriving DecidableEq
 
 inductive Kind where
@@ -163,8 +165,8 @@ inductive Val (P S : Type) where
   | blob (attrs : List (QName × S)) (text : Option S) (children : List (XmlNode S))
 
 /-- primitive text codecs, abstract: `toText k` renders, `ofText k` parses, `ok k` = values the descriptor of kind `k` holds;
-    `sizeText n` = `str(n)` (size, index, exponent, order attributes), `ofSize` = `int(text)`; `zero` = the float 0.0 of
-    `numpy.zeros`; `natVal n` / `constVal k` = the integer n / the interned constant k as a field value; `peq` = equality of
+    `sizeText n` = `str(n)` (size, index, exponent, order attributes), `ofSize` = `int(text)`;
+    `natVal n` / `constVal k` = the integer n / the interned constant k as a field value; `peq` = equality of
     field values -/
 structure Codec (P S : Type) where
   toText : PrimId → P → S
@@ -172,7 +174,6 @@ structure Codec (P S : Type) where
   ok : PrimId → P → Bool
   sizeText : Nat → S
   ofSize : S → Option Nat
-  zero : P
   natVal : Nat → P
   constVal : Nat → P
   peq : P → P → Bool
@@ -541,7 +542,7 @@ def parsePolyBody (s : PolySpec) (x : XmlNode S) : Option (Val P S) :=
       let n2 := d2 + s.dimOff
       match mapOpt (parseCoef2 C s n2) chs with
       | none => none
-      | some es => (place (List.replicate (n1 * n2) C.zero) es).map
+      | some es => (place (List.replicate (n1 * n2) (C.constVal s.fill)) es).map
           (fun flat => .node ((chunk n1 n2 flat).map (fun r => .node (r.map .prim))))
     | _, _ => none
   else
@@ -549,7 +550,7 @@ def parsePolyBody (s : PolySpec) (x : XmlNode S) : Option (Val P S) :=
     | some d1 =>
       match mapOpt (parseCoef1 C s) chs with
       | none => none
-      | some es => (place (List.replicate (d1 + s.dimOff) C.zero) es).map (fun cs => .node (cs.map .prim))
+      | some es => (place (List.replicate (d1 + s.dimOff) (C.constVal s.fill)) es).map (fun cs => .node (cs.map .prim))
     | none => none
 
 def parsePoly (s : PolySpec) (x : XmlNode S) : Option (Val P S) :=
